@@ -259,3 +259,20 @@ class SendCheck:
         return 0 if n else 1
 
 CHECKS['C16'] = SendCheck()
+
+
+class LedgerCheck(SeqCheck):
+    """C08 / C09: owned-item histories (three item layouts: 4, 16 and 24 bytes), ledger events compared per step and the
+    set of live objects compared at the end of every history."""
+    def suites(self, ctx):
+        s = ctx.seed
+        if ctx.tier == 'quick':
+            return [('own', ['rando', s, 1500, 20, 120]), ('lifeo', ['lifeo', s, 1200]), ('rand', ['rand', s + 1, 500, 20, 100])]
+        return [('own', ['rando', s, 30000, 20, 200]), ('lifeo', ['lifeo', s, 30000]), ('rand', ['rand', s + 1, 8000, 20, 150])]
+
+LEDGER_TEXT = ('Theorems (Coq): conservation of owned values for every operation of every contract-respecting history (conservation, history_conservation, '
+               'released_balance), *_init stores never drop an empty cell nor lose an occupied one, release skips empty cells and drops each occupied one once, '
+               'the state after a push does not depend on the store mode. Tie: owned-item histories with a recording Drop/Clone item in three layouts, ledger events compared '
+               'per step, live objects compared at the end of each history; refinement Model ~ Spec as for C01.')
+CHECKS['C08'] = LedgerCheck('C08', is_ledger, LEDGER_TEXT)
+CHECKS['C09'] = LedgerCheck('C09', is_ledger, LEDGER_TEXT)
